@@ -63,7 +63,8 @@ type typeOutcome struct {
 	GoKind string // struct name, "nil", "error", or other Go type
 	Type   string
 	ID     string
-	Marker bool
+	Marker bool // the name marker and the kind's own marker property both came back
+	KindOK bool // the kind's own marker property came back (true for kinds without one)
 	Err    string
 }
 
@@ -91,8 +92,10 @@ func outcomeOf(it vocab.Item, err error) typeOutcome {
 			o.Marker = true
 		}
 		// the property only this kind declares must have come back too
+		o.KindOK = true
 		if m, ok := kindMarkers[n.GoT]; ok && n.Props[m.Term] == nil {
 			o.Marker = false
+			o.KindOK = false
 		}
 	} else if n != nil {
 		o.GoKind = reflect.TypeOf(it).String()
@@ -137,8 +140,15 @@ var kindMarkers = map[string]struct {
 	}},
 }
 
+// sparseDocs: documents and values that carry nothing but the type name and the kind's own marker property (no id, no name):
+// whether such a value counts as "not empty" hangs on the type name and on that one property
+var sparseDocs bool
+
 func typeDoc(name, id string) map[string]any {
 	d := map[string]any{"id": id, "name": markerName}
+	if sparseDocs {
+		d = map[string]any{}
+	}
 	if name != "" {
 		d["type"] = name
 	}
@@ -153,9 +163,11 @@ func typeDoc(name, id string) map[string]any {
 // buildTyped builds a value of the struct kind the table assigns (Object for names outside the vocabulary).
 func buildTyped(k vmodel.StructKind, name, id string) vocab.Item {
 	p := reflect.ValueOf(k.New())
-	p.Elem().FieldByName("ID").Set(reflect.ValueOf(vocab.IRI(id)))
 	p.Elem().FieldByName("Type").Set(reflect.ValueOf(vocab.ActivityVocabularyType(name)))
-	p.Elem().FieldByName("Name").Set(reflect.ValueOf(vocab.NaturalLanguageValues{{Ref: vocab.NilLangRef, Value: vocab.Content(markerName)}}))
+	if !sparseDocs {
+		p.Elem().FieldByName("ID").Set(reflect.ValueOf(vocab.IRI(id)))
+		p.Elem().FieldByName("Name").Set(reflect.ValueOf(vocab.NaturalLanguageValues{{Ref: vocab.NilLangRef, Value: vocab.Content(markerName)}}))
+	}
 	if _, inVocab := vmodel.KindOfType(name); inVocab {
 		if m, ok := kindMarkers[k.Name]; ok {
 			m.Set(p.Elem())
@@ -181,9 +193,11 @@ func observeType(c *Ctx, name string, k vmodel.StructKind, ctx string) (typeOutc
 			b, _ := json.Marshal(typeDoc(name, id))
 			it, err := vocab.UnmarshalJSON(b)
 			out = outcomeOf(it, err)
+			keepDecoded(c, "type", vmodel.Exact, it, name+" "+ctx)
 		case "json-item":
 			b, _ := json.Marshal(map[string]any{"id": "https://example.com/outer", "type": "Create", "object": typeDoc(name, id)})
 			it, err := vocab.UnmarshalJSON(b)
+			keepDecoded(c, "type", vmodel.Exact, it, name+" "+ctx)
 			if a, ok := it.(*vocab.Activity); ok && err == nil {
 				out = outcomeOf(a.Object, nil)
 			} else {
@@ -192,6 +206,7 @@ func observeType(c *Ctx, name string, k vmodel.StructKind, ctx string) (typeOutc
 		case "json-list":
 			b, _ := json.Marshal(map[string]any{"id": "https://example.com/outer", "type": "Note", "tag": []any{"https://example.com/first", typeDoc(name, id)}})
 			it, err := vocab.UnmarshalJSON(b)
+			keepDecoded(c, "type", vmodel.Exact, it, name+" "+ctx)
 			if o, ok := it.(*vocab.Object); ok && err == nil {
 				if len(o.Tag) == 2 {
 					out = outcomeOf(o.Tag[1], nil)
@@ -385,6 +400,44 @@ func init() {
 						if ctx != "registry" && (plain.ID == "" || !plain.Marker) {
 							c.Fail(sig("properties-lost"), fmt.Sprintf("type %q in context %s: id or marker property lost: %s", tn.Name, ctx, plain), map[string]any{"type": tn.Name, "context": ctx, "got": plain.String()})
 						}
+					}
+					if hooked != plain {
+						c.Fail(sig("hooks-change-outcome"), fmt.Sprintf("type %q in context %s: %s without hooks, %s with hooks", tn.Name, ctx, plain, hooked), map[string]any{"type": tn.Name, "context": ctx})
+					}
+				}},
+				{Name: "sparse-cells", N: len(allTypeNames) * nCtx, Exhaustive: true, Run: func(c *Ctx, idx int) {
+					tn := allTypeNames[idx/nCtx]
+					ctx := typeContexts[idx%nCtx]
+					if ctx == "registry" || tn.Name == "" {
+						return
+					}
+					c.Distinct("sparse|"+tn.Name+"|"+ctx, true)
+					c.Count("sparse-cells", 1)
+					c.Pending("C07 sparse " + tn.Name + " " + ctx)
+					sparseDocs = true
+					defer func() { sparseDocs = false }()
+					plain, ok := observeType(c, tn.Name, tn.Kind, ctx)
+					if !ok {
+						return
+					}
+					restore := installHooks()
+					hooked, ok2 := observeType(c, tn.Name, tn.Kind, ctx)
+					restore()
+					if !ok2 {
+						return
+					}
+					nameCls := "specific"
+					if tn.Generic {
+						nameCls = "generic"
+					}
+					sig := func(what string) string { return fmt.Sprintf("type|%s|%s|%s|sparse-%s", ctx, tn.Kind.Name, nameCls, what) }
+					switch {
+					case plain.GoKind != tn.Kind.Name:
+						c.Fail(sig("wrong-go-type"), fmt.Sprintf("a value carrying only type %q and its kind's own property yields %s in context %s, the vocabulary assigns %s", tn.Name, plain, ctx, tn.Kind.Name), map[string]any{"type": tn.Name, "context": ctx, "got": plain.String()})
+					case plain.Type != tn.Name:
+						c.Fail(sig("type-changed"), fmt.Sprintf("type %q in context %s came back typed %q", tn.Name, ctx, plain.Type), map[string]any{"type": tn.Name, "context": ctx})
+					case !plain.KindOK:
+						c.Fail(sig("properties-lost"), fmt.Sprintf("type %q in context %s: the kind's own property was lost: %s", tn.Name, ctx, plain), map[string]any{"type": tn.Name, "context": ctx})
 					}
 					if hooked != plain {
 						c.Fail(sig("hooks-change-outcome"), fmt.Sprintf("type %q in context %s: %s without hooks, %s with hooks", tn.Name, ctx, plain, hooked), map[string]any{"type": tn.Name, "context": ctx})
